@@ -115,6 +115,18 @@ def translate(src, vocab, targets, header, requires, shapes=None):
         try:
             fn = find_fn(items, fname, impl_of, opts.get("trait"), opts.get("trait_arg"), opts.get("target_arg"))
         except KeyError as e:
+            if opts.get("if_absent") is not None and str(e).strip("'\"").endswith(": 0 definitions found"):
+                # optional target option `if_absent: callable(coq name) -> Gallina text` -- for a PRIVATE helper only (a caller
+                # of the generator's choice; a pub fn that disappears is the item skeleton's alarm, tools/gen_shape.py): a
+                # private function that no longer exists has been merged into / replaced by other private code, which the
+                # translations of its callers inline (Emitter.inline_call) -- the callers' proofs are the check.  The text
+                # keeps the Coq name defined (a stand-in the generator states openly); it gets NO entry in fn_shapes, so no
+                # translated call can reach it.
+                out.append("(* %s%s: no such function in the source (a private helper; its callers are translated with the code that replaced it inlined) *)"
+                           % ((impl_of + "::") if impl_of else "", fname))
+                out.append(opts["if_absent"](coq_name))
+                out.append("")
+                continue
             raise TranslateError(str(e))
         try:
             if opts.get("rec_fuel") is not None:
